@@ -266,6 +266,7 @@ def build(reg, src):
     from replay import c12 as rp
     reg.replays.append((r'#call\d*:KlongInterpreter\.(eval|call|_eval_fn|__call__|__setitem__|__delitem__|__getitem__)', rp.replay_parse_effects))
     reg.replays.append((r'#call\d*:.*\.pre\d+$', rp.replay_work_bound))
+    reg.replays.append((r'::(read_string|read_sym|read_num|read_char|read_shifted_comment|kg_read|skip_space|skip)\b', rp.replay_work_bound))
     reg.replays.append((r'read_sys_comment#loop0\.variant', rp.replay_read_sys_comment))
     reg.replays.append((r'.', rp.replay_parse_generic))
 
